@@ -82,6 +82,18 @@ Section Enc.
     rewrite psum_app, !psum_map_pmul, mmul_madd_r by assumption. reflexivity.
   Qed.
 
+  (** k operators expand into 2^k strings *)
+  Lemma expand_length (tab : ltab) n ops : length (expand tab n ops) = (2 ^ length ops)%nat.
+  Proof.
+    unfold expand.
+    assert (G : forall (acc : list pstr),
+               length (fold_left (fun acc o => expand_step (tab (fst o) n (snd o)) acc) ops acc)
+               = (2 ^ length ops * length acc)%nat).
+    { induction ops as [|o ops IH]; intros acc; cbn [fold_left length]; [cbn; lia|].
+      rewrite IH. unfold expand_step. rewrite app_length, !map_length. cbn [Nat.pow]. lia. }
+    rewrite G. cbn. lia.
+  Qed.
+
   (* ---------------------------------------------------------------- generic encoder *)
   Section Generic.
     Variable P : encparams K.
@@ -350,7 +362,7 @@ Section Enc.
     Variable h : K.
     Variables isz negl : K -> bool.
     Hypothesis Hh : h + h = 1.
-    Hypothesis Htab : forall kind i, ep_tab P kind n i = jw_tab kind n i.
+    Hypothesis Htab : forall kind i, (i < n)%nat -> ep_tab P kind n i = jw_tab kind n i.
     Hypothesis Hweight : forall k c, ep_weight P k c = spow h k * c.
     Hypothesis Hisz : forall c, isz c = true -> c = 0.
 
@@ -362,12 +374,12 @@ Section Enc.
       assert (Hs : (snd o < n)%nat).
       { pose proof (valid_ops_combine n (tpat t) idx Hv) as F. unfold valid_ops in F.
         rewrite Forall_forall in F. apply F. exact Ho. }
-      rewrite <- (jw_enc_lad h n o Hh Hs). intros r c _ _. unfold enc_lad. rewrite !Htab. reflexivity.
+      rewrite <- (jw_enc_lad h n o Hh Hs). intros r c _ _. unfold enc_lad. rewrite !(Htab (fst o) (snd o) Hs). reflexivity.
     Qed.
 
     Lemma jw_Htab : forall kind i, (i < n)%nat ->
       wfp n (fst (ep_tab P kind n i)) /\ wfp n (snd (ep_tab P kind n i)).
-    Proof. intros kind i Hi. rewrite Htab. apply jw_tab_wf; assumption. Qed.
+    Proof. intros kind i Hi. rewrite (Htab kind i Hi). apply jw_tab_wf; assumption. Qed.
 
     Theorem jw_encode_pruned op :
       meq n (madd (opmatrix (encode P isz negl n op))
